@@ -3,6 +3,7 @@
 -/
 import SigV4.Spec.HeaderSpec
 import SigV4.Lemmas.Headers
+import SigV4.Lemmas.C11Validate
 
 namespace SigV4.C11
 
@@ -92,6 +93,25 @@ theorem headerLine_binds (hs hs' : HeaderList) (name : Bytes)
   rw [List.append_assoc, List.append_assoc] at h1
   exact List.append_cancel_left (List.append_cancel_left h1)
 
+/-- At the level of the whole validation: inserting (hence also removing, or — as a removal followed
+by an insertion — modifying) a header anywhere in the arrival order leaves the outcome, the provider
+calls and the provider state unchanged, provided its name is neither consulted by the
+authentication logic (authorization, x-amz-date, date, x-amz-security-token, content-type), nor in
+the signed-header list the request presents, nor subject to a declared if-in-request name or prefix.
+Only the returned header list (which mirrors the request) differs. -/
+theorem unsigned_header_irrelevant {σ : Type} (H : Bytes → Bytes) (cfg : Config) (P : Provider σ) (s : σ)
+    (req : Request) (i : Nat) (extra : Bytes × Bytes)
+    (h1 : asciiLower extra.1 ∉ consultedHeaders)
+    (h2 : asciiLower extra.1 ∉ cfg.reqs.ifInRequest.map asciiLower)
+    (h3 : ∀ p ∈ cfg.reqs.prefixes, (asciiLower p).isPrefixOf (asciiLower extra.1) = false)
+    (h4 : ∀ fp ap, fromRequestParts H cfg.opts cfg.other req = .ok fp → extractAuthParams fp.creq = .ok ap →
+            asciiLower extra.1 ∉ ap.signedHeaders) :
+    (validate H cfg P s (req.insertHeader i extra)).out.map Returned.sansHeaders
+        = (validate H cfg P s req).out.map Returned.sansHeaders ∧
+    (validate H cfg P s (req.insertHeader i extra)).calls = (validate H cfg P s req).calls ∧
+    (validate H cfg P s (req.insertHeader i extra)).state = (validate H cfg P s req).state :=
+  unsigned_header_irrelevant_lemma H cfg P s req i extra h1 h2 h3 h4
+
 example : normHeaderValue b!"  a   b  c " = b!"a b c" := by decide
 example : headerLine (normalizeHeaders [(b!"X-A", b!" 1 "), (b!"host", b!"h"), (b!"x-a", b!"2  3")] []) b!"x-a"
     = b!"x-a:1,2 3\n" := by decide
@@ -108,3 +128,4 @@ end SigV4.C11
 #print axioms SigV4.C11.header_name_case_irrelevant
 #print axioms SigV4.C11.unsigned_not_in_block
 #print axioms SigV4.C11.headerLine_binds
+#print axioms SigV4.C11.unsigned_header_irrelevant
